@@ -33,6 +33,54 @@ def run(rep, prog, tier):
     r1(rep, prog)
     r2(rep, prog)
     r3(rep, prog)
+    r4(rep, prog)
+
+
+def r4(rep, prog):
+    """pruning pass-through: whoever implements Weight::for_each_pruning hands the collector's
+    threshold and the collector's callback to the pruning engine unchanged"""
+    import re
+    R = "C06-R4"
+    rep.rule(R, "pruning pass-through: in every implementation of Weight::for_each_pruning (the trait default and each override, enumerated from the fact base) every call into the pruning engine (another for_each_pruning, for_each_pruning_scorer, block_wand, block_wand_single_scorer, block_wand_intersection) receives as threshold the function's own `threshold` parameter and as callback the function's own `callback` parameter, through copies / reborrows only; a threshold or a returned threshold rescaled on the way (e.g. divided by a boost) lets the engine prune documents the collector would have kept")
+    ENG = re.compile(r"(^|::)for_each_pruning(_scorer)?$|::block_wand(_single_scorer|_intersection)?$")
+    impls = [n for n in sorted(prog.bodies) if re.search(r"(Weight>|weight::Weight)::for_each_pruning$", n)]
+    ncalls = 0
+    for n in impls:
+        b = prog.bodies[n]
+        thr = [i for i in range(1, b.argc + 1) if b.local_ty_str(i) == "f32"]
+        cbs = [i for i in range(1, b.argc + 1) if "FnMut(u32, f32) -> f32" in b.local_ty_str(i)]
+        if len(thr) != 1 or len(cbs) != 1:
+            rep.fail(R, "%s: signature" % short(n), "cannot establish: threshold / callback parameters of %s not identified" % n, site=b.span)
+            continue
+        found = 0
+        for bi, t in b.calls():
+            if not (ENG.search(t.get("res") or "") or ENG.search(t.get("f") or "")):
+                continue
+            found += 1
+            ncalls += 1
+            callee = short(t.get("res") or t.get("f"))
+            for a in t["args"]:
+                l = op_local(a)
+                tys = b.local_ty_str(l) if l is not None else ""
+                want = None
+                if tys == "f32" or (l is None and a.get("ty") == "f32"):
+                    want = ("threshold", thr[0])
+                elif "FnMut(u32, f32) -> f32" in tys:
+                    want = ("callback", cbs[0])
+                if l is None and want is None:
+                    continue
+                if want is None:
+                    continue
+                tr = trace_back(b, l) if l is not None else [("const", a.get("v"))]
+                passthru = bool(tr) and tr[-1] == ("param", want[1]) and all(s[0] in ("ref", "deref", "use", "cast") for s in tr[:-1])
+                rep.check(passthru, R, "%s -> %s: %s passed through" % (short(n), callee, want[0]),
+                          "the %s argument is the function's own parameter" % want[0],
+                          "%s gives the pruning engine %s a %s that is not its own `%s` parameter unchanged (source: %s): the engine prunes against a different bound than the collector's, "
+                          "or the collector sees other scores than the engine" % (n, callee, want[0], want[0], [s[:2] for s in tr][-3:]), site=site(b, bi))
+        rep.check(found >= 1, R, "%s reaches a pruning engine" % short(n), "%d engine call(s)" % found,
+                  "cannot establish: %s calls no known pruning engine" % n, site=b.span)
+    rep.floor(R, "implementations of Weight::for_each_pruning", len(impls), 3)
+    rep.floor(R, "engine call sites", ncalls, 5)
 
 
 def r3(rep, prog):
